@@ -1,0 +1,23 @@
+//go:build verif
+
+package exif2
+
+import "time"
+
+// VerifResetTimeZoneCache empties the time zone cache (verification hook).
+func VerifResetTimeZoneCache() {
+	mutexTimeZones.Lock()
+	cacheTimeZone = map[int32]*time.Location{}
+	mutexTimeZones.Unlock()
+}
+
+// VerifTimeZoneCache returns a copy of the cache as offset -> zone name (verification hook).
+func VerifTimeZoneCache() map[int32]string {
+	mutexTimeZones.RLock()
+	defer mutexTimeZones.RUnlock()
+	out := make(map[int32]string, len(cacheTimeZone))
+	for k, v := range cacheTimeZone {
+		out[k] = v.String()
+	}
+	return out
+}
